@@ -24,8 +24,11 @@ CONSTANTS Insts,       \* set of operator instances
           Tails,       \* set of downstream stages placed after the operator: "none", "Take1", "Throw1" (C14: an early-terminating downstream)
           PanicSrcs    \* set of choices for the source whose teardown panics (0 = none): C03, a panicking teardown does not stop the others
 
-Mark(s, j) == IF s = 1 THEN <<"i10", "i11", "i12", "i13">>[j + 1] ELSE IF s = 2 THEN <<"i20", "i21", "i22", "i23">>[j + 1] ELSE <<"i30", "i31", "i32", "i33">>[j + 1]
-TMark(s) == <<"t", "t2", "t3">>[s]
+\* item marker of the j-th value of source s ("i<10*s+j>") and terminal marker of source s ("t", "t2", ...): the harness attaches the same
+ItemDigits == <<"0", "1", "2", "3", "4", "5">>
+SrcDigits == <<"1", "2", "3", "4", "5", "6">>
+Mark(s, j) == "i" \o SrcDigits[s] \o ItemDigits[j + 1]
+TMark(s) == IF s = 1 THEN "t" ELSE "t" \o SrcDigits[s]
 
 VARIABLES m,        \* the operator instance
           st,       \* operator state (record below)
@@ -45,7 +48,7 @@ Obs(d, cl, s2) == [log |-> d, closed |-> cl,
 Init ==
   /\ m \in Insts
   /\ st = St0 /\ phase = "new" /\ closed = FALSE /\ unsub = FALSE /\ log = <<>> /\ h = <<>>
-  /\ sent = [s \in 1..3 |-> 0]
+  /\ sent = [s \in 1..MaxK |-> 0]
   /\ psrc \in {x \in PanicSrcs : x <= m.k}
   /\ sync \in {x \in SyncEnds : x.s <= m.k}
   /\ tail \in (IF m.op \in {"WindowWhen", "GroupBy", "GroupByLeave"} THEN {"none"} ELSE Tails)
